@@ -28,7 +28,7 @@ NOTE = (
     "threshold, Gamma0>0, d>0; the substitute tensorflow is diffed against real TensorFlow on every run"
 )
 TECHNIQUE = "symbolic execution of breit_wigner.py / formula.py / particle models on a symbolic tensorflow substitute; z3 nlsat per obligation; sympy expressions translated node by node; sat models replayed on real TensorFlow"
-CLAIM_EXTRA = "Second layer (props/C15pm.py): the registered particle classes built by ConfigLoader exactly as a user configures them (model: BWR/default, BWR2, BWR_below incl. the effective-mass continuation, BWR_coupling, BWR_normal, BW, LASS, GS_rho, one, x, exp, exp_com, Flatte, FlatteC, FlatteGen and Flatte2 with their options, BWR_LS with 1-3 (thorough: 5) partial waves) evaluated through DecayChain.get_amp_particle with symbolic m, m0, Gamma0 and model parameters against the formula of their own docstring (L = 0..2, thorough 3); the decay's |q|, |q0| against the documented break-up momenta; every class's get_sympy_dom(*get_sympy_var()) at get_num_var() times Particle.__call__ = 1 on the physical sheet. Compositional where nlsat does not decide the composite: momenta as free positive symbols on both sides with cal_monentum / the decay momenta / Bprime_q2 decided separately."
+CLAIM_EXTRA = "Second layer (props/C15pm.py): the registered particle classes built by ConfigLoader exactly as a user configures them (model: BWR/default, BWR2, BWR_below incl. the effective-mass continuation, BWR_coupling, BWR_normal, BW, LASS, GS_rho, one, x, exp, exp_com, Flatte, FlatteC, FlatteGen and Flatte2 with their options, BWR_LS with 1-3 (thorough: 5) partial waves) evaluated through DecayChain.get_amp_particle with symbolic m, m0, Gamma0 and model parameters against the formula of their own docstring (L = 0..2); the decay's |q|, |q0| against the documented break-up momenta; every class's get_sympy_dom(*get_sympy_var()) at get_num_var() times Particle.__call__ = 1 on the physical sheet. Compositional where nlsat does not decide the composite: momenta as free positive symbols on both sides with cal_monentum / the decay momenta / Bprime_q2 decided separately."
 NOTE_EXTRA = 'particle classes: one decay A -> R D, R -> B C with dyadic masses; Flatte family above the pseudo-thresholds |ma - mb|; Kmatrix / KMatrix* / MultiBWR / BWR_LS2 / interpolation particles have no closed documented formula encoded (outside the claim)'
 EXPLANATION = CLAIM + " " + CLAIM_EXTRA
 FUNCTIONS = [
